@@ -22,11 +22,28 @@ def main():
                  "trie.branches", "trie.utils.db", "trie.utils.nodes", "trie.utils.nibbles",
                  "trie.utils.binaries", "trie.validation", "trie.exceptions", "trie.typing"):
         importlib.import_module(name)
+    contracts = None
+    if tier == "thorough" or os.environ.get("VT_CONTRACTS") == "1":
+        # second line of monitors: icontract post-conditions on the real functions, evaluated
+        # on every call the workload makes (about 2x slower, hence not in the quick tier)
+        from vt.monitor import contracts
+
+        contracts.install()
     prefix = env.REPO + os.sep
     core.install_step_monitor(prefix)
     cover.install(prefix)
     ctx = core.Ctx(prop, tier, int(seed), int(shard), int(nshards))
     mod.run_shard(ctx)
+    if contracts is not None:
+        rep = contracts.report()
+        for name, n in rep["evaluations"].items():
+            ctx.count("contract_evals_" + name, n)
+        surfaced = sum(1 for v in ctx.violations if v["monitor"].startswith("contract-"))
+        if len(rep["broken"]) > surfaced:
+            # broken inside a call whose exceptions the workload expected (and swallowed)
+            for b in rep["broken"][: core.Ctx.MAX_VIOLATIONS]:
+                ctx.violation("contract-" + b["contract"], b["detail"], {"engine": "contract", "note":
+                              "contract broken inside a call that the workload expected to raise"})
     res = ctx.result()
     res["cover"] = cover.report(prop, env.VERIF)
     with open(out, "w") as f:
